@@ -5,25 +5,33 @@ import itertools
 
 from ..rulekit import *
 from ..norm import Normalizer, Poly
-from ..absdom import Interp, Sym, code_predicates, RFC_CODE_CLASSES, rfc_class
+from ..model import AnalysisError
+from ..absdom import Sym, code_predicates, RFC_CODE_CLASSES, rfc_class
+from . import _kit_c10 as kit
+from ._kit_c10 import Obj, Machine, new_dict, new_list
 
 R = Rules(
     "C10",
     explanation=(
-        "Finite-domain abstract evaluation (E5) of MessageManager.dispatch_message and send_message: the guard "
-        "expressions of the two dispatchers are extracted from the syntax tree and evaluated by the checker's own "
-        "interpreter for every valuation of (message type) x (boundary codes of every RFC 7252 code class) x "
-        "(duplicate hit) x (response matched) x (received on multicast), resp. (code class) x (No-Response value) x "
-        "(piggy-back opportunity) x (preset type) x (shutting down) x (multicast destination) x (reliability) x "
-        "(request type); the effect calls reached are compared cell by cell with a reference table written from "
-        "RFC 7252 section 4, RFC 7967 and the property text.  The meaning of Code.is_request/is_response/... is itself "
-        "extracted from numbers/codes.py and compared with RFC 7252 section 12.1 first.  Further clauses: the Reset / "
-        "empty ACK builders use the incoming message ID and the response address; piggy-back bookkeeping (timer only "
-        "for CON, stored under (remote, token), every removal cancels the timer or is the timer firing); "
-        "as_response_address strips the local address iff received on multicast.  The 0.1 s race between handler "
-        "completion and the empty-ACK timer is not decided."
+        "Finite-domain evaluation (E5) by scenarios: MessageManager.dispatch_message, send_message, _process_request "
+        "(with the timer callback it arms), _process_ping, _send_empty_ack and UDP6EndpointAddress.as_response_address "
+        "are run in the checker's own tree-walking evaluator (rules/_kit_c10.py; nothing of the repository is imported "
+        "or executed) on concrete finite worlds: for every valuation of (message type) x (boundary codes of every "
+        "RFC 7252 code class) x (duplicate hit) x (response matched) x (received on multicast), resp. (code class) x "
+        "(No-Response value) x (piggy-back opportunity) x (preset type) x (shutting down) x (multicast destination) x "
+        "(reliability) x (request type) x (backlog absent / empty / busy); what happens (modelled methods reached, fields "
+        "of the message that is sent or queued, final contents of the opportunity table and the backlog, cancelled "
+        "timers, exception leaving) is compared cell by cell with a reference written from RFC 7252 section 4, "
+        "RFC 7967 and the property text.  The meaning of Code.is_request/is_response/... is itself extracted from "
+        "numbers/codes.py and compared with RFC 7252 section 12.1 first.  Further clauses, decided the same way: the "
+        "Reset / empty ACK builders use the incoming message ID and the response address; piggy-back bookkeeping "
+        "(exactly one timer and only for CON, stored as (mid, handle) under (remote, token) before the request is "
+        "handed on, the fired timer retires its own entry and acknowledges under the stored mid, every other removal "
+        "cancels the timer); as_response_address strips the local address iff received on multicast.  Helper methods "
+        "are evaluated whether or not the engine expanded them, so the verdict does not depend on how the functions "
+        "are spelled.  The 0.1 s race between handler completion and the empty-ACK timer is not decided."
     ),
-    rule_text="exhaustive finite-domain evaluation of extracted guards against a reference decision table; dominance and pairing rules",
+    rule_text="exhaustive finite-domain evaluation of the dispatchers in the checker's own evaluator against a reference decision table; scenario evaluation of the bookkeeping (final-state and effect comparison)",
 )
 
 MM = "messagemanager.MessageManager."
@@ -58,6 +66,9 @@ def _msg_ctor_fields(fi, e):
 
 
 def dispatch_effect(fi, m):
+    """Effect labelling for absdom.Interp (kept for rules/c03.py, which imports it together with CODES and CONSTS).
+    C10 itself no longer uses it: `dispatch_reaction(prog, preds, mtype, code, dedup, matched, mcast)` below gives
+    the same labels from the scenario evaluator and does not depend on how dispatch_message is spelled."""
     def effect(call, it):
         cn = call_name(call) or ""
         if cn == "self._deduplicate_message":
@@ -84,7 +95,166 @@ def dispatch_effect(fi, m):
     return effect
 
 
-def reference_dispatch(mtype, code, dedup, matched, mcast, m):
+# ---------------------------------------------------------------------------------------------------------------
+# Clauses a-g are decided on *scenarios* (rules/_kit_c10.py): dispatch_message, send_message, _process_request (and
+# the timer callback it arms), _process_ping, _send_empty_ack and as_response_address are run in the checker's own
+# evaluator on concrete finite worlds -- messages with a type symbol, a code integer and distinct individuals for
+# remote / token / message ID, bookkeeping tables that are concrete dicts, collaborators whose calls are recorded --
+# and what happened (calls reaching the modelled methods, fields of the message that is sent, final table
+# contents, cancelled timers, exception leaving) is compared with a reference written from RFC 7252 section 4,
+# RFC 7967 and the property text.  A refuted obligation is therefore backed by a concrete scenario and does not
+# depend on spelling: helper methods (expanded by the engine or not), early returns vs nested ifs, named
+# conditions and hoisted locals, `in (A, B)` vs `==` chains, conditional expressions, match vs if chains,
+# membership test + pop vs `.get()` / `pop(k, None)` / `del`, constructor keywords vs later attribute assignment,
+# nested def vs lambda vs functools.partial vs bound method as timer callback all evaluate alike.  Methods named
+# here as effects (anchors of the confirmed tree that leave the message layer or are decided by other clauses:
+# _send_initially, _next_message_id, _deduplicate_message, _remove_exchange, _process_request, _process_response)
+# are recorded, every other method of the class -- _process_ping and _send_empty_ack included -- is evaluated down
+# to them, so it does not matter which method on the way performs a step (e.g. takes the response address);
+# anything outside the evaluator's vocabulary is an analysis error, never a violation.
+
+MMCLS = "messagemanager.MessageManager"
+
+
+def _cached(ctx, key, build):
+    cache = ctx.prog.__dict__.setdefault("_c10_cache", {})
+    if key not in cache:
+        try:
+            cache[key] = ("ok", build())
+        except AnalysisError as e:
+            cache[key] = ("err", e)
+    kind, v = cache[key]
+    if kind == "err":
+        raise AnalysisError(str(v))
+    return v
+
+
+def _preds(ctx):
+    return _cached(ctx, "preds", lambda: code_predicates(ctx.prog))
+
+
+def _remote(tag, mcast=False, mcast_locally=False):
+    """A peer address.  Its response address (RFC 7252 section 8.2: never the multicast address the request
+    came to) is another individual that denotes the same peer; taking the response address twice changes nothing."""
+    r = Obj("obj", tag, attrs={"is_multicast": mcast, "is_multicast_locally": mcast_locally})
+    resp = Obj("obj", "response-address(%s)" % tag, attrs={"is_multicast": mcast, "is_multicast_locally": False})
+    resp.methods["as_response_address"] = lambda m, recv, a, k, n: recv
+    r.methods["as_response_address"] = lambda m, recv, a, k, n: resp
+    r.resp = resp
+    resp.resp = resp
+    return r
+
+
+def _call_later(m, recv, args, kwargs, node):
+    if kwargs or len(args) < 2:
+        raise kit.Unknown("loop.call_later with %d arguments / keywords" % len(args))
+    m.counter += 1
+    h = Obj("handle", "timer#%d" % m.counter)
+    m.effect("call_later", h, args[0], args[1], tuple(args[2:]))
+    return h
+
+
+def _self_obj(pb=None, backlogs=None, active=None):
+    s = Obj("self", "self", lazy=True)
+    s.attrs["loop"] = Obj("obj", "loop", methods={"call_later": _call_later})
+    s.attrs["token_manager"] = Obj("obj", "token_manager")
+    s.attrs["message_interface"] = Obj("obj", "message_interface")
+    s.attrs["_piggyback_opportunities"] = pb if pb is not None else new_dict(tag="_piggyback_opportunities")
+    s.attrs["_backlogs"] = backlogs if backlogs is not None else new_dict(tag="_backlogs")
+    s.attrs["_active_exchanges"] = active
+    s.attrs["message_id"] = 4711
+    return s
+
+
+def _argmap(m, name, args, kwargs):
+    """arguments of a recorded method call by parameter name (signature taken from the analysed class)"""
+    fi = m.prog.lookup_method(m.cls.qn, name)
+    if fi is None:
+        raise kit.Unknown("method %s" % name)
+    fr = kit.Frame(fi.module)
+    m.bind(fi.node, fr, None, [m.self_obj] + list(args), kwargs)
+    return [fr.vars[p] for p in params(fi)]
+
+
+def _label(x):
+    if isinstance(x, Obj):
+        return x.tag
+    if isinstance(x, Sym):
+        return str(x)
+    return repr(x)
+
+
+def _code_label(c):
+    return "EMPTY" if c == 0 and not isinstance(c, bool) else _label(c)
+
+
+def _other_effects(trace):
+    """labels of recorded events that no reference expects (calls on collaborators, timers, table writes)"""
+    out = []
+    for t in trace:
+        if t[0] == "other":
+            out.append("other:%s" % t[1])
+        elif t[0] == "call_later":
+            out.append("call_later")
+    return out
+
+
+# -- dispatch_message -------------------------------------------------------------------------------------------
+
+def dispatch_reaction(prog, preds, mtype, code, dedup, matched, mcast):
+    """Labels of what dispatch_message does with an incoming (mtype, code) message in a world where the duplicate
+    filter answers `dedup`, the token layer answers `matched` and the message was received on a multicast address
+    iff `mcast`.  -> (labels, machine)"""
+    cls = prog.cls(MMCLS)
+    fi = prog.func(MM + "dispatch_message")
+    # the *source* of an incoming datagram is never a multicast address; what matters is the local address
+    remote = _remote("message.remote", mcast=False, mcast_locally=mcast)
+    msg = Obj("obj", "message", lazy=True, attrs={
+        "mtype": Sym(mtype), "code": code, "mid": Obj("obj", "message.mid"), "token": Obj("obj", "message.token"), "remote": remote})
+
+    def plain(method, label, result):
+        def stub(m, args, kwargs, node):
+            a = _argmap(m, method, args, kwargs)
+            m.effect("label", label if a and a[0] is msg else "%s(%s)" % (label, _label(a[0]) if a else ""))
+            return result
+        return stub
+
+    def stub_send(m, args, kwargs, node):
+        a = _argmap(m, "_send_initially", args, kwargs)
+        x = a[0]
+        if not isinstance(x, Obj):
+            m.effect("label", "send:%r" % (x,))
+            return
+        f = x.attrs
+        m.effect("label", "send:%s/%s/mid=%s/to=%s" % (_label(f.get("mtype")), _code_label(f.get("code")), _label(f.get("mid")), _label(f.get("remote"))))
+
+    stubs = {
+        "_deduplicate_message": plain("_deduplicate_message", "dedup", dedup),
+        "_remove_exchange": plain("_remove_exchange", "remove_exchange", None),
+        "_process_request": plain("_process_request", "process_request", None),
+        "_process_response": plain("_process_response", "process_response", matched),
+        # _process_ping and _send_empty_ack are evaluated down to _send_initially: what counts is the message that
+        # reaches the wire, not which of the methods in between turns the remote into the response address
+        "_send_initially": stub_send,
+        "_next_message_id": lambda m, args, kwargs, node: Obj("obj", "fresh-mid"),
+    }
+    m = Machine(prog, cls, _self_obj(active=new_dict(tag="_active_exchanges")), CONSTS, preds, stubs)
+    out = m.run(fi, [m.self_obj, msg])
+    labels = []
+    for t in m.trace:
+        if t[0] == "label":
+            labels.append(t[1])
+        elif t[0] == "cancel":
+            labels.append("cancel:%s" % t[1].tag)
+        elif t[0] in ("table-store", "table-remove"):
+            labels.append("%s:%s" % (t[0], t[1].tag))
+    labels += _other_effects(m.trace)
+    if out[0] == "raise":
+        labels.append("raise:%s" % out[1])
+    return labels, m
+
+
+def reference_dispatch(mtype, code, dedup, matched, mcast, m="message"):
     """RFC 7252 section 4.2/4.3/4.5, section 8.1 and the property text (DESIGN A.7)."""
     cls = rfc_class(code)
     eff = []
@@ -94,9 +264,11 @@ def reference_dispatch(mtype, code, dedup, matched, mcast, m):
             return eff
     if mtype in ("ACK", "RST"):
         eff.append("remove_exchange")
+    rst = "send:RST/EMPTY/mid=%s.mid/to=response-address(%s.remote)" % (m, m)
     if cls == "EMPTY":
         if mtype == "CON":
-            eff.append("ping")
+            # a ping is answered by a Reset (RFC 7252 section 4.3), wherever it was received
+            eff.append(rst)
     elif cls == "request":
         if mtype in ("CON", "NON"):
             eff.append("process_request")
@@ -105,16 +277,16 @@ def reference_dispatch(mtype, code, dedup, matched, mcast, m):
             eff.append("process_response")
             if matched:
                 if mtype == "CON":
-                    eff.append("send:ACK/EMPTY/mid=%s.mid" % m)
+                    eff.append("send:ACK/EMPTY/mid=%s.mid/to=response-address(%s.remote)" % (m, m))
             else:
                 if mtype == "CON" and not mcast:
-                    eff.append("send:RST/EMPTY/mid=%s.mid" % m)
+                    eff.append(rst)
     return eff
 
 
 @R.clause("C10.a", "decision table of dispatch_message over type x code x duplicate x matched x multicast equals the RFC 7252 reference (exhaustive)")
 def a(ctx):
-    preds = code_predicates(ctx.prog)
+    preds = _preds(ctx)
     ci = ctx.prog.cls("numbers.codes.Code")
     for name, (lo, hi) in RFC_CODE_CLASSES.items():
         got = preds[name]
@@ -123,7 +295,7 @@ def a(ctx):
         ctx.ob("Code.%s covers exactly %s..%s (RFC 7252 section 12.1)" % (name, lo, hi), not diff, ci.methods[name], ci.methods[name].node,
                construct="Code.%s" % name, detail="differs for codes %s" % diff[:8] if diff else "256 codes evaluated")
     fi = ctx.prog.func(MM + "dispatch_message")
-    m = params(fi)[0]
+    ctx.need(len(params(fi)) == 1, "dispatch_message does not take exactly the incoming message")
     ctx.ob("dispatch_message is atomic (plain def)", is_plain_sync(fi), fi, fi.node, construct="def dispatch_message")
     rows = 0
     bad = {}
@@ -134,25 +306,8 @@ def a(ctx):
             continue
         if cls != "response" and matched:
             continue
-        env = {
-            m + ".mtype": Sym(mtype),
-            m + ".code": code,
-            m + ".remote.is_multicast_locally": mcast,
-            # the *source* of an incoming datagram is never a multicast address; what matters is the local address
-            m + ".remote.is_multicast": False,
-        }
-        calls = [
-            ("self._deduplicate_message($x)", dedup),
-            ("self._process_response($x)", matched),
-        ]
-        it = Interp(fi, env, calls, preds, CONSTS, dispatch_effect(fi, m))
-        # locals assigned from the helper calls
-        for n in walk_no_nested(fi.node):
-            if isinstance(n, ast.Assign) and len(n.targets) == 1 and isinstance(n.targets[0], ast.Name):
-                pass
-        it.run()
-        got = [e for e in it.trace]
-        want = reference_dispatch(mtype, code, dedup, matched, mcast, m)
+        got, _ = dispatch_reaction(ctx.prog, preds, mtype, code, dedup, matched, mcast)
+        want = reference_dispatch(mtype, code, dedup, matched, mcast)
         rows += 1
         if len(samples) < 6 and got:
             samples.append({"mtype": mtype, "code": code, "dedup": dedup, "matched": matched, "multicast": mcast, "effects": got})
@@ -166,205 +321,328 @@ def a(ctx):
     if not bad:
         ctx.ob("all %d cells of the dispatch_message decision table agree with the reference" % rows, True, fi, fi.node, construct="dispatch_message decision table")
     for (got, want), cells in sorted(bad.items()):
-        # pin to the first effect that differs
         cell = cells[0]
         ctx.ob("reaction to (type, code, duplicate, matched, multicast) equals the RFC 7252 rule", False, fi, fi.node,
                construct="dispatch_message: %s instead of %s" % (list(got), list(want)),
                detail="%d cell(s), e.g. mtype=%s code=%d duplicate=%s matched=%s multicast=%s" % ((len(cells),) + cell))
 
 
+# -- Reset / empty ACK builders -----------------------------------------------------------------------------------
+
+def _builder_run(ctx, fname, make_args):
+    """Run one of the builders with _send_initially recorded; -> (sent field dicts, other labels, outcome, args)"""
+    prog = ctx.prog
+    cls = prog.cls(MMCLS)
+    fi = prog.func(MM + fname)
+    sent = []
+
+    def stub_send(m, args, kwargs, node):
+        a = _argmap(m, "_send_initially", args, kwargs)
+        x = a[0]
+        sent.append(dict(x.attrs) if isinstance(x, Obj) else {"?": x})
+
+    def stub_mid(m, args, kwargs, node):
+        return Obj("obj", "fresh-mid")
+
+    m = Machine(prog, cls, _self_obj(active=new_dict(tag="_active_exchanges")), CONSTS, _preds(ctx), {"_send_initially": stub_send, "_next_message_id": stub_mid})
+    args = make_args()
+    out = m.run(fi, [m.self_obj] + args)
+    others = _other_effects(m.trace) + ["cancel:%s" % t[1].tag for t in m.trace if t[0] == "cancel"]
+    return fi, sent, others, out, args
+
+
+def _fields(f):
+    return {k: _label(v) for k, v in f.items() if k in ("mtype", "code", "mid", "remote")}
+
+
 @R.clause("C10.b", "Reset and empty ACK carry the incoming message ID and go to the response address")
 def b(ctx):
     n = 0
-    # _process_ping
-    fi = ctx.prog.func(MM + "_process_ping")
-    m = params(fi)[0]
-    sends = list(find("self._send_initially($x)", fi.node))
-    ctx.floor("sends in _process_ping", len(sends), 1)
-    for c, bnd in sends:
-        f = _msg_ctor_fields(fi, bnd["x"])
-        ok = f is not None and chain(f.get("mtype")) == "RST" and chain(f.get("code")) == "EMPTY" and chain(f.get("mid")) == m + ".mid"
-        ctx.ob("a ping is answered by an empty Reset with the ping's message ID", ok, fi, c, detail=str({k: stmt_text(v) for k, v in (f or {}).items() if v is not None}))
-        ctx.ob("the Reset goes to the response address of the sender", f is not None and f.get("remote") is not None and match("%s.remote.as_response_address()" % m, f["remote"]) is not None, fi, c)
-        n += 1
-    # unmatched response arm
-    fi = ctx.prog.func(MM + "dispatch_message")
-    m = params(fi)[0]
-    for c, bnd in find("self._send_initially($x)", fi.node):
-        f = _msg_ctor_fields(fi, bnd["x"])
-        ok = f is not None and chain(f.get("mtype")) == "RST" and chain(f.get("code")) == "EMPTY" and chain(f.get("mid")) == m + ".mid"
-        ctx.ob("an unmatched confirmable response is answered by an empty Reset with its message ID", ok, fi, c)
-        ctx.ob("the Reset goes to the response address of the sender", f is not None and f.get("remote") is not None and match("%s.remote.as_response_address()" % m, f["remote"]) is not None, fi, c)
-        n += 1
-    for c, bnd in find("self._send_empty_ack($*a, $**kw)", fi.node):
-        a = bnd["a"]
-        ok = len(a) >= 2 and chain(a[0]) == m + ".remote" and chain(a[1]) == m + ".mid"
-        ctx.ob("a matched confirmable response is acknowledged under its own message ID and remote", ok, fi, c)
-        n += 1
-    # _send_empty_ack
+    # _process_ping: an empty CON is answered by an empty RST with the same message ID (RFC 7252 section 4.3)
+    for mcast in (False, True):
+        def mk():
+            return [Obj("obj", "message", lazy=True, attrs={"mtype": Sym("CON"), "code": 0, "mid": Obj("obj", "message.mid"), "token": Obj("obj", "message.token"),
+                                                            "remote": _remote("message.remote", mcast_locally=mcast)})]
+        fi, sent, others, out, args = _builder_run(ctx, "_process_ping", mk)
+        msg = args[0]
+        ctx.ob("a ping is answered by exactly one message and nothing else", len(sent) == 1 and not others and out[0] == "return", fi, fi.node, construct="def _process_ping",
+               detail="sent %d message(s), other effects %s, outcome %s" % (len(sent), others, out[0]))
+        for f in sent:
+            ok = isinstance(f.get("mtype"), Sym) and f["mtype"] == "RST" and f.get("code") == 0 and not isinstance(f.get("code"), bool) and f.get("mid") is msg.attrs["mid"]
+            ctx.ob("a ping is answered by an empty Reset with the ping's message ID", ok, fi, fi.node, construct="_process_ping: the Reset", detail=str(_fields(f)))
+            ctx.ob("the Reset goes to the response address of the sender", f.get("remote") is msg.attrs["remote"].resp, fi, fi.node, construct="_process_ping: destination of the Reset", detail=str(_fields(f)))
+            n += 1
+    # _send_empty_ack(remote, mid, reason)
+    def mk2():
+        return [_remote("remote"), Obj("obj", "mid"), "reason"]
     fi = ctx.prog.func(MM + "_send_empty_ack")
-    p = params(fi)
-    for c, bnd in find("self._send_initially($x)", fi.node):
-        f = _msg_ctor_fields(fi, bnd["x"])
-        ok = f is not None and chain(f.get("mtype")) == "ACK" and chain(f.get("code")) == "EMPTY" and isinstance(f.get("mid"), ast.Name) and f["mid"].id == p[1]
-        ctx.ob("_send_empty_ack sends (ACK, EMPTY, given mid)", ok, fi, c, detail=str({k: stmt_text(v) for k, v in (f or {}).items() if v is not None}))
-        ctx.ob("the empty ACK goes to the response address of the given remote", f is not None and f.get("remote") is not None and match("%s.as_response_address()" % p[0], f["remote"]) is not None, fi, c)
+    ctx.need(len(params(fi)) >= 2, "_send_empty_ack does not take (remote, mid, ...)")
+    fi, sent, others, out, args = _builder_run(ctx, "_send_empty_ack", lambda: mk2()[:len(params(fi))])
+    ctx.ob("_send_empty_ack sends exactly one message and nothing else", len(sent) == 1 and not others and out[0] == "return", fi, fi.node, construct="def _send_empty_ack",
+           detail="sent %d message(s), other effects %s, outcome %s" % (len(sent), others, out[0]))
+    for f in sent:
+        ok = isinstance(f.get("mtype"), Sym) and f["mtype"] == "ACK" and f.get("code") == 0 and not isinstance(f.get("code"), bool) and f.get("mid") is args[1]
+        ctx.ob("_send_empty_ack sends (ACK, EMPTY, given mid)", ok, fi, fi.node, construct="_send_empty_ack: the ACK", detail=str(_fields(f)))
+        # whether _send_empty_ack or its callers take the response address is decided end to end (the ACK arm of
+        # dispatch_message here and in C10.a, the timer callback in C10.c); alone it must not send it elsewhere
+        ctx.ob("the empty ACK goes to the given remote", f.get("remote") is args[0].resp or f.get("remote") is args[0], fi, fi.node, construct="_send_empty_ack: destination of the ACK", detail=str(_fields(f)))
         n += 1
-    ctx.floor("Reset/ACK builder sites", n, 4)
+    # the two arms of dispatch_message that answer a confirmable response
+    fi = ctx.prog.func(MM + "dispatch_message")
+    preds = _preds(ctx)
+    for code in (65, 69, 132, 160):
+        got, _ = dispatch_reaction(ctx.prog, preds, "CON", code, False, False, False)
+        sends = [x for x in got if x.startswith("send:")]
+        ctx.ob("an unmatched confirmable response is answered by an empty Reset with its message ID", sends == ["send:RST/EMPTY/mid=message.mid/to=response-address(message.remote)"] or
+               [s.rsplit("/to=", 1)[0] for s in sends] == ["send:RST/EMPTY/mid=message.mid"], fi, fi.node, construct="dispatch_message: Reset for an unmatched CON response", detail=str(sends))
+        ctx.ob("the Reset goes to the response address of the sender", [s.rsplit("/to=", 1)[-1] for s in sends] == ["response-address(message.remote)"], fi, fi.node,
+               construct="dispatch_message: destination of the Reset", detail=str(sends))
+        got, _ = dispatch_reaction(ctx.prog, preds, "CON", code, False, True, False)
+        sends = [x for x in got if x.startswith("send:")]
+        ctx.ob("a matched confirmable response is acknowledged under its own message ID, towards the response address of its sender", sends == ["send:ACK/EMPTY/mid=message.mid/to=response-address(message.remote)"], fi, fi.node,
+               construct="dispatch_message: ACK for a matched CON response", detail=str(sends))
+        n += 2
+    ctx.floor("Reset/ACK builder scenarios", n, 4)
 
 
-PB = "self._piggyback_opportunities"
+# -- send_message -------------------------------------------------------------------------------------------------
+
+SEND_CODES = (1, 69, 132, 160)
+NO_RESPONSE = (None, 0, 2, 8, 16, 26)
+BACKLOG = ("absent", "empty", "busy")
 
 
-@R.clause("C10.c", "piggy-back bookkeeping: timer only for CON, stored as (mid, handle) under (remote, token); every removal cancels the timer or is the timer firing")
-def c(ctx):
-    fi = ctx.prog.func(MM + "_process_request")
-    rq = params(fi)[0]
-    cfg = cfg_of(fi)
-    timers = list(find("self.loop.call_later($d, $cb, $*rest)", fi.node))
-    ctx.floor("empty-ACK timers in _process_request", len(timers), 1)
-    N = Normalizer(env=norm.local_env(fi.node))
-    for call, bnd in timers:
-        nid = cfg.loc1(call)
-        alive, _ = mtype_values(guard_exprs(cfg, nid), "%s.mtype" % rq, TYPES)
-        ctx.ob("the empty-ACK timer is armed only for confirmable requests", alive == {"CON"}, fi, call, detail="mtype in %s" % sorted(alive))
-        ctx.ob("the timer delay is EMPTY_ACK_DELAY of the request's tuning", N.poly(bnd["d"]) == Poly.atom("%s.transport_tuning.EMPTY_ACK_DELAY" % rq), fi, call)
-    # every CON request arms one: from the T pseudo-node of mtype==CON all paths to exit pass a timer + a store
-    stores = [(k, n) for k, n in stores_to(fi.node, PB, nested=False) if k == "setitem"]
-    ctx.floor("stores into _piggyback_opportunities", len(stores), 1)
-    for k, st in stores:
-        tgt = st.targets[0]
-        key = resolve_local(fi.node, tgt.slice)
-        kb = match("($a, $b)", key)
-        ctx.ob("the opportunity is stored under (request.remote, request.token)", kb is not None and chain(kb["a"]) == rq + ".remote" and chain(kb["b"]) == rq + ".token", fi, st)
-        vb = match("($a, $b)", st.value)
-        hok = False
-        if vb is not None and isinstance(vb["b"], ast.Name):
-            hv = resolve_local(fi.node, vb["b"])
-            hok = any(hv is t for t, _ in timers)
-        ctx.ob("what is stored is (request.mid, timer handle)", vb is not None and chain(vb["a"]) == rq + ".mid" and hok, fi, st)
-    con_t = [n.id for n in cfg.nodes if n.kind == "T" and mtype_values([(n.ast, True)], "%s.mtype" % rq, TYPES)[0] == {"CON"}]
-    ctx.need(con_t, "_process_request has no branch on mtype == CON")
-    for t in con_t:
-        ctx.ob("every confirmable request gets an acknowledgement opportunity before it is processed", cfg.must_pass(t, [cfg.loc1(st) for _, st in stores]), fi, cfg.nodes[t].ast)
-    pr = list(find("self.token_manager.process_request($x)", fi.node))
-    ctx.floor("hand-over to the token manager", len(pr), 1)
-    for c, bnd in pr:
-        ctx.ob("the request is handed on on every normal path", cfg.must_pass(cfg.entry, [cfg.loc1(c)]), fi, c)
-    # the timer callback: pops its own key and sends the empty ACK with the stored mid
-    for call, bnd in timers:
-        cb = bnd["cb"]
-        cbf = None
-        if isinstance(cb, ast.Name) and ctx.prog.has_func(fi.short + ".<locals>." + cb.id):
-            cbf = ctx.prog.func(fi.short + ".<locals>." + cb.id)
-        ctx.need(cbf is not None, "empty-ACK timer callback is not a nested function")
-        cp = [a.arg for a in cbf.node.args.args]
-        rest = bnd["rest"]
-        bind = dict(zip(cp, rest))
-        pops = [(k, n) for k, n in stores_to(cbf.node, PB.replace("self", cp[0] if cp and cp[0] == "self" else "self")) if k == "pop"]
-        ctx.ob("the timer callback removes its own opportunity", len(pops) == 1, cbf, cbf.node, construct="def " + cbf.name)
-        for k, n in pops:
-            kb = match("($a, $b)", n.args[0]) if n.args else None
-            okk = kb is not None and all(isinstance(x, ast.Name) and x.id in bind for x in (kb["a"], kb["b"])) and \
-                chain(bind[kb["a"].id]) == rq + ".remote" and chain(bind[kb["b"].id]) == rq + ".token"
-            ctx.ob("the callback removes exactly the key it was armed for", okk, cbf, n)
-        acks = list(find("self._send_empty_ack($*a)", cbf.node))
-        ctx.ob("the callback sends the empty ACK", len(acks) == 1, cbf, cbf.node, construct="def " + cbf.name)
-        for c2, b2 in acks:
-            a = b2["a"]
-            mid_ok = False
-            if len(a) >= 2 and isinstance(a[1], ast.Name):
-                for w in writes_to_name(cbf.node, a[1].id):
-                    if isinstance(w, ast.Assign) and isinstance(w.targets[0], ast.Tuple) and w.targets[0].elts and isinstance(w.targets[0].elts[0], ast.Name) and w.targets[0].elts[0].id == a[1].id and any(w.value is n for _, n in pops):
-                        mid_ok = True
-            ctx.ob("the empty ACK carries the stored message ID of the request", mid_ok, cbf, c2)
-            r_ok = len(a) >= 1 and (chain(a[0]) == rq + ".remote" or (isinstance(a[0], ast.Name) and a[0].id in bind and chain(bind[a[0].id]) == rq + ".remote"))
-            ctx.ob("the empty ACK goes to the request's remote", r_ok, cbf, c2)
-    # all pops in the class
-    pops = []
-    for f in ctx.prog.funcs.values():
-        if f.module.name != "aiocoap.messagemanager":
+def send_reaction(prog, preds, code, nr, hit, preset, shut, mcast, rel, reqt, backlog, stale_mid=False):
+    """What send_message does with an outgoing message of the given code / No-Response option / preset type in a
+    world with (hit) or without an acknowledgement opportunity under (message.remote, message.token), during
+    shutdown or not, towards a multicast address or not, with the given transport tuning, type of the request it
+    answers, and state of the remote's backlog (no entry / entry with an empty queue / entry with a queued message).
+    -> (observation dict, machine)"""
+    cls = prog.cls(MMCLS)
+    fi = prog.func(MM + "send_message")
+    remote = _remote("message.remote", mcast=mcast)
+    token = Obj("obj", "message.token")
+    request = Obj("obj", "message.request", lazy=True, attrs={"mtype": Sym(reqt)}) if reqt else None
+    msg = Obj("obj", "message", lazy=True, attrs={
+        "mid": Obj("obj", "stale-mid") if stale_mid else None, "code": code, "mtype": Sym(preset) if preset else None, "token": token, "remote": remote,
+        "opt": Obj("obj", "message.opt", lazy=True, attrs={"no_response": nr}),
+        "transport_tuning": Obj("obj", "message.transport_tuning", lazy=True, attrs={"reliability": rel}),
+        "request": request})
+    monitor = Obj("obj", "messageerror_monitor")
+    stored_mid, stored_timer = Obj("obj", "stored-mid"), Obj("handle", "stored-timer")
+    by_key, by_val = (_remote("bystander.remote"), Obj("obj", "bystander.token")), (Obj("obj", "bystander.mid"), Obj("handle", "bystander-timer"))
+    pb = new_dict({by_key: by_val}, tag="_piggyback_opportunities")
+    key = (remote, token)
+    if hit:
+        pb.data[key] = (stored_mid, stored_timer)
+    backlogs = new_dict(tag="_backlogs")
+    initial = []
+    if backlog != "absent":
+        if backlog == "busy":
+            initial = [(Obj("obj", "queued-message", lazy=True, attrs={"mtype": Sym("CON"), "remote": remote}), Obj("obj", "queued-monitor"))]
+        backlogs.data[remote] = new_list(initial, tag="_backlogs[message.remote]")
+    active = None
+    if not shut:
+        active = new_dict(tag="_active_exchanges")
+        if backlog != "absent":
+            active.data[(remote, Obj("obj", "active-mid"))] = (Obj("obj", "active-monitor"), Obj("handle", "retransmission-timer"))
+    fresh_mid = Obj("obj", "fresh-mid")
+    sent = []
+
+    def describe(x, mon):
+        if not isinstance(x, Obj):
+            return ("?%r" % (x,),)
+        f = x.attrs
+        mid = f.get("mid")
+        midk = "stored" if mid is stored_mid else "fresh" if mid is fresh_mid else _label(mid)
+        rem = f.get("remote")
+        remk = "same" if rem is remote else "response-address" if rem is remote.resp else _label(rem)
+        mt = f.get("mtype")
+        mtk = str(mt) if isinstance(mt, Sym) else _label(mt)
+        # _send_initially needs the monitor for confirmable messages only (it files the exchange under it)
+        monk = "-" if mtk != "CON" else ("monitor" if mon is monitor else "monitor=%s" % _label(mon))
+        c = f.get("code")
+        return (mtk, c if isinstance(c, int) and not isinstance(c, bool) else _label(c), midk, remk, monk)
+
+    def stub_send(m, args, kwargs, node):
+        a = _argmap(m, "_send_initially", args, kwargs)
+        sent.append(describe(a[0], a[1] if len(a) > 1 else None))
+
+    def stub_mid(m, args, kwargs, node):
+        m.effect("fresh-mid")
+        return fresh_mid
+
+    m = Machine(prog, cls, _self_obj(pb, backlogs, active), CONSTS, preds, {"_send_initially": stub_send, "_next_message_id": stub_mid})
+    out = m.run(fi, [m.self_obj, msg, monitor][:1 + len(params(fi))])
+    obs = {}
+    if hit:
+        obs["timer"] = "cancelled" if stored_timer.attrs.get("cancelled") else "running"
+    tbl = m.self_obj.attrs.get("_piggyback_opportunities")
+    if tbl is not pb:
+        obs["table"] = "replaced"
+    else:
+        k = m._find_key(pb, key)
+        if hit:
+            obs["opportunity"] = "taken" if k is kit._MISSING else "left" if pb.data[k] == (stored_mid, stored_timer) else "changed"
+        else:
+            obs["opportunity"] = "absent" if k is kit._MISSING else "appeared"
+        bk = m._find_key(pb, by_key)
+        if bk is kit._MISSING or pb.data[bk] != by_val or by_val[1].attrs.get("cancelled") or len(pb.data) != (1 if k is kit._MISSING else 2):
+            obs["bystander"] = "disturbed"
+    obs["sent"] = tuple(sent)
+    queued = []
+    bl = m.self_obj.attrs.get("_backlogs")
+    if bl is not backlogs:
+        obs["backlogs"] = "replaced"
+    else:
+        rk = m._find_key(bl, remote)
+        if (rk is kit._MISSING) != (backlog == "absent") or len(bl.data) != (0 if backlog == "absent" else 1):
+            obs["backlogs"] = "entry %s" % ("appeared" if backlog == "absent" else "vanished")
+        elif rk is not kit._MISSING:
+            lst = bl.data[rk]
+            items = list(lst.data) if isinstance(lst, Obj) and lst.kind == "list" else None
+            if items is None or items[:len(initial)] != initial:
+                obs["backlogs"] = "queue disturbed"
+            else:
+                for it in items[len(initial):]:
+                    # _continue_backlog unpacks every entry as (message, messageerror_monitor)
+                    if isinstance(it, tuple) and len(it) == 2:
+                        queued.append(describe(it[0], it[1]))
+                    else:
+                        queued.append(("?%s" % _label(it),))
+    obs["queued"] = tuple(queued)
+    others = _other_effects(m.trace) + ["cancel:%s" % t[1].tag for t in m.trace if t[0] == "cancel" and t[1] is not stored_timer and t[1] is not by_val[1]]
+    if others:
+        obs["other"] = tuple(others)
+    if out[0] == "raise":
+        obs["outcome"] = "raise ConToMulticast" if out[1].split(".")[-1] == "ConToMulticast" else "raise %s" % out[1]
+        obs["_exc"] = out[1]
+    else:
+        obs["outcome"] = "return"
+    return obs, m
+
+
+def reference_send(code, nr, hit, preset, shut, mcast, rel, reqt, backlog):
+    """RFC 7252 section 4.2/5.2.1/5.2.2, RFC 7967 and the property text."""
+    obs = {"sent": (), "queued": (), "outcome": "return"}
+    if hit:
+        obs["timer"] = "running"
+    obs["opportunity"] = "left" if hit else "absent"
+    mtype = preset
+    mid = "fresh"
+    remote = "same"
+    is_resp = 64 <= code <= 191
+    if is_resp:
+        cls = code >> 5
+        suppressed = ((nr or 0) & (1 << (cls - 1))) != 0
+        if hit:
+            # the response uses up the opportunity: the empty-ACK timer is cancelled and the entry retired
+            obs["timer"] = "cancelled"
+            obs["opportunity"] = "taken"
+            if suppressed:
+                code, mtype, mid, remote = 0, "ACK", "stored", "response-address"
+            else:
+                mtype, mid = "ACK", "stored"
+        elif suppressed:
+            return obs
+    if mtype is None:
+        if shut:
+            mtype = "NON"
+        elif mcast and remote == "same":
+            mtype = "NON"
+        elif rel is True:
+            mtype = "CON"
+        elif rel is False:
+            mtype = "NON"
+        else:
+            mtype = "NON" if reqt == "NON" else "CON"
+    elif shut:
+        mtype = "NON"
+    if mtype == "CON" and mcast and remote == "same":
+        obs["outcome"] = "raise ConToMulticast"
+        return obs
+    rec = (mtype, code, mid, remote, "monitor" if mtype == "CON" else "-")
+    if mtype == "CON" and backlog != "absent":
+        obs["queued"] = (rec,)
+    else:
+        obs["sent"] = (rec,)
+    return obs
+
+
+def _render(obs):
+    parts = []
+    if obs.get("timer") == "cancelled":
+        parts.append(("cancel-timer",))
+    if obs.get("timer") == "running":
+        parts.append(("timer-left-running",))
+    if obs.get("opportunity") in ("left", "changed", "appeared") or obs.get("table"):
+        parts.append(("opportunity-%s" % (obs.get("opportunity") or obs.get("table")),))
+    if obs.get("bystander"):
+        parts.append(("other-opportunity-disturbed",))
+    for s in obs.get("sent", ()):
+        parts.append(("send",) + tuple(s))
+    for s in obs.get("queued", ()):
+        parts.append(("queue",) + tuple(s))
+    if obs.get("backlogs"):
+        parts.append(("backlogs", obs["backlogs"]))
+    for o in obs.get("other", ()):
+        parts.append((o,))
+    return (tuple(parts), obs.get("outcome"))
+
+
+def _send_cells():
+    for code, nr, hit, preset, shut, mcast, rel, reqt, backlog in itertools.product(
+            SEND_CODES, NO_RESPONSE, (False, True), (None, "CON", "NON", "ACK"), (False, True), (False, True), (True, False, None), (None, "NON", "CON"), BACKLOG):
+        if code == 1 and (nr is not None or hit or reqt is not None):
             continue
-        for k, n in stores_to_any(f.node, "_piggyback_opportunities"):
-            if k in ("pop", "delitem", "popitem", "clear"):
-                pops.append((f, k, n))
-    ctx.floor("removals from _piggyback_opportunities", len(pops), 3)
-    for f, k, n in pops:
-        if f.name == "on_timeout" or (f.parent is not None and f.parent.short == MM + "_process_request"):
-            continue  # the timer firing itself
-        cfg2 = cfg_of(f)
-        nid = cfg2.loc1(n)
-        st = cfg2.nodes[nid].ast
-        han = None
-        if isinstance(st, ast.Assign) and isinstance(st.targets[0], ast.Tuple) and len(st.targets[0].elts) == 2 and isinstance(st.targets[0].elts[1], ast.Name):
-            han = st.targets[0].elts[1].id
-        cancels = [cfg2.loc1(c) for c, _ in find("%s.cancel()" % han, f.node)] if han else []
-        ctx.ob("removing an acknowledgement opportunity cancels its empty-ACK timer on every normal path", bool(cancels) and cfg2.must_pass(nid, cancels), f, n)
+        if preset == "ACK" and code == 1:
+            continue
+        yield (code, nr, hit, preset, shut, mcast, rel, reqt, backlog)
 
 
-def send_effect(fi, m):
-    def effect(call, it):
-        cn = call_name(call) or ""
-        if cn == "self._send_initially":
-            a0 = chain(call.args[0]) if call.args else "?"
-            return ("send", it.env.get(a0 + ".mtype"), it.env.get(a0 + ".code"), it.env.get(a0 + ".mid"), it.env.get(a0 + ".remote"))
-        if isinstance(call.func, ast.Attribute) and call.func.attr in ("append", "insert", "appendleft") and isinstance(call.func.value, ast.Subscript) and chain(call.func.value.value) == "self._backlogs":
-            arg = call.args[-1] if call.args else None
-            a0 = chain(arg.elts[0]) if isinstance(arg, ast.Tuple) and arg.elts else "?"
-            return ("queue", it.env.get(a0 + ".mtype"), it.env.get(a0 + ".code"), it.env.get(a0 + ".mid"), it.env.get(a0 + ".remote"))
-        if cn.endswith(".cancel"):
-            return ("cancel", it.env.get(cn[:-7]))
-        return None
-    return effect
+def _send_table(ctx):
+    """All cells of the send_message table, evaluated once per program: [(cell, got, want)], executed node ids"""
+    def build():
+        preds = _preds(ctx)
+        rows = []
+        executed = set()
+        for cell in _send_cells():
+            got, m = send_reaction(ctx.prog, preds, *cell)
+            executed |= m.executed
+            rows.append((cell, got, reference_send(*cell)))
+        return rows, executed
+    return _cached(ctx, "send_table", build)
+
+
+def _cmp(obs):
+    return {k: v for k, v in obs.items() if not k.startswith("_")}
 
 
 @R.clause("C10.d", "send_message decision table: piggy-backing, No-Response mask, type selection, ConToMulticast (exhaustive)")
 def d(ctx):
-    preds = code_predicates(ctx.prog)
     fi = ctx.prog.func(MM + "send_message")
-    m = params(fi)[0]
+    ctx.need(len(params(fi)) == 2, "send_message does not take (message, messageerror_monitor)")
     ctx.ob("send_message is atomic (plain def)", is_plain_sync(fi), fi, fi.node, construct="def send_message")
-    # who is the handle / mid popped from the opportunity table
-    rows = 0
+    table, _ = _send_table(ctx)
     bad = {}
     samples = []
-    codes = (1, 69, 132, 160)
-    for code, nr, hit, preset, shut, mcast, rel, reqt, backlog in itertools.product(
-            codes, (None, 0, 2, 8, 16, 26), (False, True), (None, "CON", "NON", "ACK"), (False, True), (False, True), (True, False, None), (None, "NON", "CON"), (False, True)):
-        if code == 1 and (nr is not None or hit or reqt is not None):
+    for cell, got, want in table:
+        if len(samples) < 5 and cell[2]:
+            samples.append({"code": cell[0], "no_response": cell[1], "piggyback": cell[2], "preset": cell[3], "effects": repr(_render(got))})
+        if _cmp(got) != want:
+            bad.setdefault((repr(_render(got)), repr(_render(want))), []).append(cell)
+    # a message ID set by the application is never put on the wire
+    preds = _preds(ctx)
+    stale = 0
+    for code, hit, preset in itertools.product(SEND_CODES, (False, True), (None, "CON", "NON")):
+        if code == 1 and hit:
             continue
-        if preset == "ACK" and not (code != 1):
-            continue
-        env = {
-            m + ".mid": None,
-            m + ".code": code,
-            m + ".mtype": Sym(preset) if preset else None,
-            m + ".opt.no_response": nr,
-            m + ".remote": ("object", "remote"),
-            m + ".token": ("object", "token"),
-            m + ".remote.is_multicast": mcast,
-            m + ".transport_tuning.reliability": rel,
-            m + ".request": ("object", "request") if reqt else None,
-            m + ".request.mtype": Sym(reqt) if reqt else None,
-            "self._active_exchanges": None if shut else ("object", "table"),
-        }
-        calls = [
-            ("$k in self._piggyback_opportunities", hit),
-            ("$k not in self._piggyback_opportunities", not hit),
-            ("$r in self._backlogs", backlog),
-            ("$r not in self._backlogs", not backlog),
-            ("$x.as_response_address()", ("object", "response-address")),
-        ]
-        it = Interp(fi, env, calls, preds, CONSTS, send_effect(fi, m))
-        it.run()
-        got = (tuple(it.trace), it.outcome.split("(")[0] if it.outcome else None)
-        want = reference_send(code, nr, hit, preset, shut, mcast, rel, reqt, backlog)
-        rows += 1
-        g = normalise_send(got)
-        if len(samples) < 5 and hit:
-            samples.append({"code": code, "no_response": nr, "piggyback": hit, "preset": preset, "effects": repr(g)})
-        if g != want:
-            bad.setdefault((repr(g), repr(want)), []).append((code, nr, hit, preset, shut, mcast, rel, reqt, backlog))
+        cell = (code, None, hit, preset, False, False, None, None, "absent")
+        got, _m = send_reaction(ctx.prog, preds, *cell, stale_mid=True)
+        stale += 1
+        if _cmp(got) != reference_send(*cell):
+            bad.setdefault((repr(_render(got)), repr(_render(reference_send(*cell)))), []).append(cell)
+    rows = len(table) + stale
     ctx.extra["send_table_rows"] = rows
     ctx.extra["send_samples"] = samples
     ctx.floor("rows of the send_message table", rows, 1000)
@@ -376,113 +654,268 @@ def d(ctx):
                detail="%d cell(s), e.g. code=%s no_response=%s piggyback=%s preset=%s shutdown=%s multicast=%s reliability=%s request_type=%s backlog=%s" % ((len(cells),) + cells[0]))
 
 
-def normalise_send(got):
-    trace, outcome = got
-    out = []
-    for t in trace:
-        if t[0] == "cancel":
-            out.append(("cancel-timer",) if isinstance(t[1], tuple) and t[1][0] == "elt" and t[1][2] == 1 else ("cancel", repr(t[1])))
-        else:
-            kind, mtype, code, mid, remote = t
-            midk = "stored" if isinstance(mid, tuple) and mid[0] == "elt" and mid[2] == 0 else ("fresh" if isinstance(mid, tuple) and mid[0] == "expr" and "_next_message_id" in mid[1] else repr(mid))
-            rem = "response-address" if remote == ("object", "response-address") else "same"
-            out.append((kind, str(mtype) if mtype is not None else None, code, midk, rem))
-    oc = "raise ConToMulticast" if outcome and outcome.startswith("raise:") and "ConToMulticast" in outcome else outcome
-    return (tuple(out), oc)
-
-
-def reference_send(code, nr, hit, preset, shut, mcast, rel, reqt, backlog):
-    """RFC 7252 section 4.2/5.2.1/5.2.2, RFC 7967 and the property text."""
-    eff = []
-    mtype = preset
-    mid = "fresh"
-    remote = "same"
-    is_resp = 64 <= code <= 191
-    if is_resp:
-        cls = code >> 5
-        suppressed = ((nr or 0) & (1 << (cls - 1))) != 0
-        if hit:
-            eff.append(("cancel-timer",))
-            if suppressed:
-                code, mtype, mid, remote = 0, "ACK", "stored", "response-address"
-            else:
-                mtype, mid = "ACK", "stored"
-        elif suppressed:
-            return (tuple(eff), "return")
-    if mtype is None:
-        if shut:
-            mtype = "NON"
-        elif mcast and remote == "same":
-            mtype = "NON"
-        elif remote != "same":
-            mtype = mtype  # replaced message already has its type
-        elif rel is True:
-            mtype = "CON"
-        elif rel is False:
-            mtype = "NON"
-        else:
-            mtype = "NON" if reqt == "NON" else "CON"
-    elif shut:
-        mtype = "NON"
-    if mtype == "CON" and mcast and remote == "same":
-        return (tuple(eff), "raise ConToMulticast")
-    if mtype == "CON" and backlog:
-        eff.append(("queue", mtype, code, mid, remote))
-    else:
-        eff.append(("send", mtype, code, mid, remote))
-    return (tuple(eff), "return")
-
-
 @R.clause("C10.f", "no transmission or queueing is reachable once mtype == CON and the destination is multicast")
 def f(ctx):
     fi = ctx.prog.func(MM + "send_message")
-    m = params(fi)[0]
-    cfg = cfg_of(fi)
-    raises = [n for n in walk_no_nested(fi.node) if isinstance(n, ast.Raise) and n.exc is not None and "ConToMulticast" in ast.unparse(n.exc)]
-    ctx.ob("send_message refuses confirmable messages to multicast destinations (raises ConToMulticast)", bool(raises), fi, fi.node, construct="def send_message")
-    for r in raises:
-        nid = cfg.loc1(r)
-        alive, others = mtype_values(guard_exprs(cfg, nid), "%s.mtype" % m, TYPES)
-        ctx.ob("the refusal applies to CON", alive == {"CON"}, fi, r)
-        ctx.ob("the refusal applies to multicast destinations", guarded_by(cfg, nid, "%s.remote.is_multicast" % m, True), fi, r)
-        cls = ctx.prog.resolve_in_module(fi.module, chain(r.exc.func if isinstance(r.exc, ast.Call) else r.exc) or "?")
-        ctx.ob("ConToMulticast is a library error", ctx.prog.is_subclass(cls, "aiocoap.error.Error"), fi, r, detail=cls)
-    sinks = [cfg.loc1(c) for c, _ in find("self._send_initially($*a)", fi.node)] + [cfg.loc1(n) for k, n in stores_to(fi.node, "self._backlogs") if k in ("append", "insert", "appendleft")]
-    ctx.floor("transmission/queue sites in send_message", len(sinks), 2)
-    # every sink is dominated by the F outcome of the (CON and multicast) test pair: i.e. no path entry -> sink
-    # avoiding both `mtype == CON` F and `is_multicast` F after the final type has been chosen
-    tests_con = [n for n in cfg.nodes if n.kind == "test" and mtype_values([(n.ast, True)], "%s.mtype" % m, TYPES)[0] == {"CON"} and
-                 any(cfg.nodes[d].kind == "T" and any(cfg.nodes[x].kind == "test" and match("%s.remote.is_multicast" % m, cfg.nodes[x].ast) is not None for x, _ in cfg.succ[d]) for d, _ in cfg.succ[n.id])]
-    ctx.ob("the CON-to-multicast test exists", bool(tests_con), fi, fi.node, construct="def send_message")
-    for t in tests_con:
-        for s in sinks:
-            ctx.ob("every transmission or queueing site is passed only after the CON-to-multicast test", cfg.dominates(t.id, s), fi, cfg.nodes[s].ast)
-        # no store to message.mtype after the test
-        late = [n for n in walk_no_nested(fi.node) if isinstance(n, ast.Assign) and any(chain(x) == m + ".mtype" for x in n.targets) and t.id in cfg.dominators(cfg.loc1(n))]
-        ctx.ob("the message type is final when the test is made", not late, fi, late[0] if late else t.ast)
+    table, _ = _send_table(ctx)
+    refused = 0
+    leaked = []
+    missing = []
+    classes = set()
+    for cell, got, want in table:
+        mcast = cell[5]
+        con_out = [s for s in got.get("sent", ()) + got.get("queued", ()) if s and s[0] == "CON" and len(s) > 3 and s[3] == "same"]
+        if mcast and con_out:
+            leaked.append((cell, con_out))
+        if want["outcome"] == "raise ConToMulticast":
+            if got.get("outcome") == "raise ConToMulticast":
+                refused += 1
+                classes.add(got["_exc"])
+            else:
+                missing.append(cell)
+    ctx.ob("send_message refuses confirmable messages to multicast destinations (raises ConToMulticast)", refused > 0 and not missing, fi, fi.node, construct="def send_message",
+           detail="refused in %d cell(s)" % refused + ("; not refused e.g. for (code, No-Response, piggy-back, preset, shutdown, multicast, reliability, request type, backlog) = %s" % (missing[0],) if missing else ""))
+    ctx.ob("no confirmable message is transmitted or queued towards a multicast destination, whichever way its type was chosen", not leaked, fi, fi.node,
+           construct="send_message: CON towards multicast", detail="e.g. %s -> %s" % leaked[0] if leaked else "%d cells" % len(table))
+    spurious = [cell for cell, got, want in table if got.get("outcome") == "raise ConToMulticast" and want["outcome"] != "raise ConToMulticast"]
+    ctx.ob("the refusal applies to CON towards multicast only", not spurious, fi, fi.node, construct="send_message: scope of the ConToMulticast refusal",
+           detail="also refused: %s" % (spurious[0],) if spurious else None)
+    for cls in sorted(classes):
+        ctx.ob("ConToMulticast is a library error", ctx.prog.is_subclass(cls, "aiocoap.error.Error"), fi, fi.node, construct="raise %s" % cls.split(".")[-1], detail=cls)
+
+
+# -- piggy-back bookkeeping ---------------------------------------------------------------------------------------
+
+PB = "self._piggyback_opportunities"
+
+
+def request_scenario(ctx, mtype, prior):
+    """_process_request on a request of the given type, with (prior) or without an older opportunity under the
+    same (remote, token); afterwards the armed timers are fired one by one.  -> dict of observations"""
+    prog = ctx.prog
+    cls = prog.cls(MMCLS)
+    fi = prog.func(MM + "_process_request")
+    remote, token, mid = _remote("request.remote"), Obj("obj", "request.token"), Obj("obj", "request.mid")
+    tuning = Obj("obj", "request.transport_tuning", lazy=True)
+    req = Obj("obj", "request", lazy=True, attrs={"mtype": Sym(mtype), "code": 1, "mid": mid, "token": token, "remote": remote, "transport_tuning": tuning})
+    by_key, by_val = (_remote("bystander.remote"), Obj("obj", "bystander.token")), (Obj("obj", "bystander.mid"), Obj("handle", "bystander-timer"))
+    old = (Obj("obj", "older.mid"), Obj("handle", "older-timer"))
+    pb = new_dict({by_key: by_val}, tag="_piggyback_opportunities")
+    key = (remote, token)
+    if prior:
+        pb.data[key] = old
+
+    def stub_send(m, args, kwargs, node):
+        a = _argmap(m, "_send_initially", args, kwargs)
+        m.effect("sent", dict(a[0].attrs) if isinstance(a[0], Obj) else {"?": a[0]})
+
+    m = Machine(prog, cls, _self_obj(pb, None, new_dict(tag="_active_exchanges")), CONSTS, _preds(ctx),
+                {"_send_initially": stub_send, "_next_message_id": lambda m_, a_, k_, n_: Obj("obj", "fresh-mid")})
+    out = m.run(fi, [m.self_obj, req])
+    o = {"machine": m, "fi": fi, "req": req, "key": key, "pb": pb, "old": old, "by_key": by_key, "by_val": by_val, "outcome": out}
+    o["timers"] = [t for t in m.trace if t[0] == "call_later"]
+    o["delay"] = m.getattr(tuning, "EMPTY_ACK_DELAY")
+    o["table_is_same"] = m.self_obj.attrs.get("_piggyback_opportunities") is pb
+    o["entry"] = pb.data.get(key)
+    o["keys"] = list(pb.data.keys())
+    handed = [i for i, t in enumerate(m.trace) if t[0] == "other" and t[1] == "token_manager.process_request"]
+    o["handed"] = [m.trace[i] for i in handed]
+    stored = [i for i, t in enumerate(m.trace) if t[0] == "table-store" and t[1] is pb and t[2] == key]
+    o["stored_before_handover"] = bool(stored) and bool(handed) and max(stored) < min(handed)
+    o["stray"] = [x for x in _other_effects(m.trace) if x not in ("call_later", "other:token_manager.process_request")] + ["message sent" for t in m.trace if t[0] == "sent"]
+    o["cancelled"] = [t[1] for t in m.trace if t[0] == "cancel"]
+    # fire
+    o["fired"] = []
+    for t in o["timers"]:
+        _, handle, delay, cb, rest = t
+        if handle.attrs.get("cancelled"):
+            continue
+        before = len(m.trace)
+        had = key in pb.data
+        res = m.invoke(cb, rest, what="empty-ACK timer callback")
+        ev = m.trace[before:]
+        o["fired"].append({"handle": handle, "result": res, "had": had, "acks": [e[1] for e in ev if e[0] == "sent"], "removed": [e[2] for e in ev if e[0] == "table-remove" and e[1] is pb],
+                           "stray": _other_effects(ev), "cancelled": [e[1] for e in ev if e[0] == "cancel"], "left": list(pb.data.keys()),
+                           "stored": [e[2] for e in ev if e[0] == "table-store"]})
+    return o
+
+
+@R.clause("C10.c", "piggy-back bookkeeping: timer only for CON, stored as (mid, handle) under (remote, token); every removal cancels the timer or is the timer firing")
+def c(ctx):
+    fi = ctx.prog.func(MM + "_process_request")
+    ctx.need(len(params(fi)) == 1, "_process_request does not take exactly the request")
+    node = fi.node
+    executed = set()
+    n_con = 0
+    for mtype, prior in itertools.product(TYPES, (False, True)):
+        o = request_scenario(ctx, mtype, prior)
+        m = o["machine"]
+        executed |= m.executed
+        req, key, pb = o["req"], o["key"], o["pb"]
+        world = "%s request, %s" % (mtype, "an older opportunity under the same (remote, token) is still open" if prior else "no older opportunity")
+        ctx.ob("_process_request returns normally", o["outcome"][0] == "return", fi, node, construct="_process_request: outcome", detail="%s: %s" % (world, o["outcome"],))
+        ctx.ob("the request is handed on to the token manager exactly once, and nothing else is called", len(o["handed"]) == 1 and o["handed"][0][2][:1] == (req,) and not o["stray"], fi, node,
+               construct="_process_request: hand-over to the token manager", detail="%s: %d hand-over(s), other effects %s" % (world, len(o["handed"]), o["stray"]))
+        ctx.ob("the table of opportunities is updated in place", o["table_is_same"], fi, node, construct="_process_request: table identity", detail=world)
+        bystander_ok = o["by_key"] in pb.data and pb.data[o["by_key"]] == o["by_val"] and not o["by_val"][1].attrs.get("cancelled")
+        ctx.ob("opportunities of other requests are left alone", bystander_ok and set(o["keys"]) <= {o["by_key"], key}, fi, node, construct="_process_request: other opportunities",
+               detail="%s: table keys %s" % (world, [tuple(_label(x) for x in k) if isinstance(k, tuple) else _label(k) for k in o["keys"]]))
+        if mtype == "CON":
+            n_con += 1
+            timers = o["timers"]
+            ctx.ob("every confirmable request arms exactly one empty-ACK timer", len(timers) == 1, fi, node, construct="_process_request: timer for CON", detail="%s: %d timer(s)" % (world, len(timers)))
+            for t in timers:
+                ctx.ob("the timer delay is EMPTY_ACK_DELAY of the request's tuning", t[2] is o["delay"], fi, node, construct="_process_request: timer delay", detail="%s: delay %s" % (world, _label(t[2])))
+            e = o["entry"]
+            ctx.ob("the opportunity is stored under (request.remote, request.token)", e is not None and len(o["keys"]) == 2, fi, node, construct="_process_request: key of the opportunity",
+                   detail="%s: table keys %s" % (world, [tuple(_label(x) for x in k) if isinstance(k, tuple) else _label(k) for k in o["keys"]]))
+            hok = isinstance(e, tuple) and len(e) == 2 and e[0] is req.attrs["mid"] and len(timers) == 1 and e[1] is timers[0][1]
+            ctx.ob("what is stored is (request.mid, timer handle)", hok, fi, node, construct="_process_request: stored opportunity",
+                   detail="%s: stored %s" % (world, tuple(_label(x) for x in e) if isinstance(e, tuple) else _label(e)))
+            ctx.ob("every confirmable request gets an acknowledgement opportunity before it is processed", o["stored_before_handover"], fi, node,
+                   construct="_process_request: opportunity before hand-over", detail=world)
+            live = [t for t in timers if not t[1].attrs.get("cancelled")]
+            ctx.ob("the timer that was just armed is left running", len(live) == len(timers), fi, node, construct="_process_request: new timer running", detail=world)
+            if prior:
+                ctx.ob("removing an acknowledgement opportunity cancels its empty-ACK timer on every normal path", bool(o["old"][1].attrs.get("cancelled")), fi, node,
+                       construct="_process_request: superseded opportunity", detail="%s: the older timer is %s" % (world, "cancelled" if o["old"][1].attrs.get("cancelled") else "left running: a second empty ACK will be sent"))
+            else:
+                ctx.ob("no timer is cancelled without cause", not o["cancelled"], fi, node, construct="_process_request: cancellations", detail="%s: cancelled %s" % (world, [h.tag for h in o["cancelled"]]))
+            ctx.ob("the timer can fire", len(o["fired"]) == len(live), fi, node, construct="_process_request: timer callback")
+            for fz in o["fired"]:
+                ctx.ob("the timer callback returns normally", fz["result"][0] == "return", fi, node, construct="empty-ACK timer callback: outcome", detail="%s: %s" % (world, fz["result"],))
+                ctx.ob("the timer callback removes its own opportunity", fz["removed"] == [key] and key not in fz["left"] and not fz["stored"], fi, node, construct="empty-ACK timer callback: removal",
+                       detail="%s: removed %s, left %s" % (world, [tuple(_label(x) for x in k) if isinstance(k, tuple) else _label(k) for k in fz["removed"]], len(fz["left"])))
+                ctx.ob("the callback removes exactly the key it was armed for", o["by_key"] in fz["left"] and len(fz["left"]) == 1, fi, node, construct="empty-ACK timer callback: key", detail=world)
+                ctx.ob("the callback sends the empty ACK", len(fz["acks"]) == 1 and not fz["stray"] and not fz["cancelled"], fi, node, construct="empty-ACK timer callback: empty ACK",
+                       detail="%s: %d empty ACK(s), other effects %s" % (world, len(fz["acks"]), fz["stray"]))
+                for ack in fz["acks"]:
+                    isack = isinstance(ack.get("mtype"), Sym) and ack["mtype"] == "ACK" and ack.get("code") == 0 and not isinstance(ack.get("code"), bool)
+                    ctx.ob("what the callback sends is an empty ACK", isack, fi, node, construct="empty-ACK timer callback: type and code", detail="%s: %s" % (world, _fields(ack)))
+                    ctx.ob("the empty ACK carries the stored message ID of the request", ack.get("mid") is req.attrs["mid"], fi, node, construct="empty-ACK timer callback: message ID", detail="%s: mid %s" % (world, _label(ack.get("mid"))))
+                    ctx.ob("the empty ACK goes to the request's remote", ack.get("remote") is req.attrs["remote"].resp, fi, node, construct="empty-ACK timer callback: remote", detail="%s: remote %s" % (world, _label(ack.get("remote"))))
+        else:
+            ctx.ob("the empty-ACK timer is armed only for confirmable requests", not o["timers"] and not o["cancelled"] and (o["entry"] is None) == (not prior) and (not prior or o["entry"] == o["old"]), fi, node,
+                   construct="_process_request: timer for non-CON", detail="%s: %d timer(s), entry %s" % (world, len(o["timers"]), o["entry"]))
+    ctx.floor("confirmable-request scenarios", n_con, 2)
+    # a response that takes the opportunity retires it and cancels the timer (send_message, also part of the C10.d table)
+    table, ex2 = _send_table(ctx)
+    executed |= ex2
+    sfi = ctx.prog.func(MM + "send_message")
+    hits = [(cell, got) for cell, got, want in table if cell[2]]
+    ctx.floor("send_message scenarios with an open opportunity", len(hits), 10)
+    running = [cell for cell, got in hits if got.get("timer") != "cancelled"]
+    ctx.ob("removing an acknowledgement opportunity cancels its empty-ACK timer on every normal path", not running, sfi, sfi.node, construct="send_message: timer of the used opportunity",
+           detail="timer left running e.g. for (code, No-Response, piggy-back, preset, shutdown, multicast, reliability, request type, backlog) = %s" % (running[0],) if running else "%d scenarios" % len(hits))
+    left = [cell for cell, got in hits if got.get("opportunity") != "taken"]
+    ctx.ob("a response that uses an acknowledgement opportunity retires it", not left, sfi, sfi.node, construct="send_message: used opportunity retired",
+           detail="entry still present e.g. for %s" % (left[0],) if left else "%d scenarios" % len(hits))
+    disturbed = [cell for cell, got, want in table if got.get("bystander")]
+    ctx.ob("opportunities of other requests are left alone", not disturbed, sfi, sfi.node, construct="send_message: other opportunities", detail="e.g. %s" % (disturbed[0],) if disturbed else None)
+    # every other place that removes opportunities: either it was exercised by the scenarios above (where the timer
+    # of every removed entry is observed) or it must cancel the timer of what it removes on every normal path
+    sites = []
+    for f in ctx.prog.funcs.values():
+        if f.module.name != "aiocoap.messagemanager":
+            continue
+        for k, n in stores_to_any(f.node, "_piggyback_opportunities"):
+            if k in ("pop", "delitem", "popitem", "clear", "ref:pop", "ref:popitem", "ref:clear"):
+                sites.append((f, k, n))
+    uncovered = []
+    for f, k, n in sites:
+        if k.startswith("ref:"):
+            cov = ("called", id(n)) in executed
+        else:
+            cov = id(n) in executed
+        if not cov:
+            uncovered.append((f, k, n))
+    # methods of the manager that need nothing but the manager (shutdown and the like) are exercised on a table
+    # with two open opportunities: whatever they remove must have its timer cancelled when they are done
+    tried = set()
+    for f, k, n in list(uncovered):
+        top = f
+        while top.parent is not None:
+            top = top.parent
+        if top.cls is None or top.cls.qn != ctx.prog.cls(MMCLS).qn or params(top) or top.qn in tried:
+            continue
+        tried.add(top.qn)
+        vals = [(Obj("obj", "mid#%d" % i), Obj("handle", "timer#%d" % i)) for i in (1, 2)]
+        pb = new_dict({(_remote("remote#%d" % i), Obj("obj", "token#%d" % i)): v for i, v in zip((1, 2), vals)}, tag="_piggyback_opportunities")
+        m = Machine(ctx.prog, ctx.prog.cls(MMCLS), _self_obj(pb, None, new_dict(tag="_active_exchanges")), CONSTS, _preds(ctx), {})
+        m.allow_async = True
+        try:
+            m.run(top, [m.self_obj])
+        except AnalysisError as e:
+            ctx.note("%s could not be exercised (%s); its removal sites are decided on the flow graph" % (top.short, e))
+            continue
+        executed |= m.executed
+        removed = [t[2] for t in m.trace if t[0] == "table-remove" and t[1] is pb]
+        running = [v for v in vals if not any(kk in pb.data and pb.data[kk] is v for kk in pb.data) and not v[1].attrs.get("cancelled")]
+        if removed:
+            ctx.ob("removing an acknowledgement opportunity cancels its empty-ACK timer on every normal path", not running, top, top.node, construct="%s: timers of the removed opportunities" % top.name,
+                   detail="%d removed, %d timer(s) left running" % (len(removed), len(running)))
+    uncovered = [(f, k, n) for f, k, n in uncovered if not ((("called", id(n)) in executed) if k.startswith("ref:") else (id(n) in executed))]
+    ctx.extra["removal_sites"] = {"total": len(sites), "exercised_by_scenarios": len(sites) - len(uncovered)}
+    for f, k, n in uncovered:
+        ok = False
+        if not k.startswith("ref:"):
+            cfg2 = cfg_of(f)
+            nid = cfg2.loc1(n)
+            st = cfg2.nodes[nid].ast
+            han = None
+            if isinstance(st, ast.Assign) and isinstance(st.targets[0], ast.Tuple) and len(st.targets[0].elts) == 2 and isinstance(st.targets[0].elts[1], ast.Name):
+                han = st.targets[0].elts[1].id
+            cancels = [cfg2.loc1(c) for c, _ in find("%s.cancel()" % han, f.node)] if han else []
+            ok = bool(cancels) and cfg2.must_pass(nid, cancels)
+        ctx.ob("removing an acknowledgement opportunity cancels its empty-ACK timer on every normal path", ok, f, n)
 
 
 @R.clause("C10.g", "as_response_address strips the local (multicast) address iff the message was received on multicast")
 def g(ctx):
-    fi = ctx.prog.func("transports.udp6.UDP6EndpointAddress.as_response_address")
-    cfg = cfg_of(fi)
-    rets = [n for n in walk_no_nested(fi.node) if isinstance(n, ast.Return)]
-    ctx.floor("returns in as_response_address", len(rets), 2)
-    saw_self = saw_copy = False
-    for r in rets:
-        nid = cfg.loc1(r)
-        if isinstance(r.value, ast.Name) and r.value.id == "self":
-            saw_self = True
-            ctx.ob("the address is kept as is only when not received on multicast", guarded_by(cfg, nid, "self.is_multicast_locally", False), fi, r)
+    """Evaluated like the clauses above: as_response_address is run on an address that was / was not received on a
+    multicast address; the result must be the address itself in the latter case and, in the former, a new address
+    of the same class whose constructor arguments (bound through the analysed __init__ signature) keep the socket
+    address and the interface but carry no pktinfo.  Guard clause vs if/else vs conditional expression, and
+    type(self) vs self.__class__ vs the class name, evaluate alike."""
+    prog = ctx.prog
+    cls = prog.cls("transports.udp6.UDP6EndpointAddress")
+    fi = prog.func("transports.udp6.UDP6EndpointAddress.as_response_address")
+    init = prog.lookup_method(cls.qn, "__init__")
+    ctx.need(init is not None, "UDP6EndpointAddress.__init__ missing")
+    ctx.need(not params(fi), "as_response_address takes arguments")
+    outcomes = set()
+    for mc in (False, True):
+        sockaddr, pktinfo, interface = Obj("obj", "self.sockaddr"), Obj("obj", "self.pktinfo"), Obj("obj", "self.interface")
+        me = Obj("self", "self", attrs={"is_multicast_locally": mc, "sockaddr": sockaddr, "pktinfo": pktinfo, "interface": interface, 
+                                    # the weak reference the interface property dereferences
+                                    "_interface": Obj("builtin", "self._interface", data=lambda m_, a_, k_, n_, i_=interface: i_)})
+        m = Machine(prog, cls, me, {}, _preds(ctx), {})
+        out = m.run(fi, [me])
+        v = out[1] if out[0] == "return" else None
+        strays = _other_effects(m.trace)
+        if not mc:
+            ctx.ob("the address is kept as is when not received on multicast", out[0] == "return" and v is me and not strays, fi, fi.node, construct="as_response_address: not received on multicast",
+                   detail="result %s" % _label(v) if out[0] == "return" else "outcome %s" % (out,))
+            outcomes.add("self" if v is me else "other")
         else:
-            saw_copy = True
-            v = r.value
-            okc = isinstance(v, ast.Call) and (match("type(self)", v.func) is not None or chain(v.func) in ("UDP6EndpointAddress", "self.__class__"))
-            no_pkt = okc and not any(k.arg == "pktinfo" and not (isinstance(k.value, ast.Constant) and k.value.value is None) for k in v.keywords) and len(v.args) <= 2
-            same_sock = okc and v.args and chain(v.args[0]) == "self.sockaddr"
-            ctx.ob("for messages received on multicast a copy without the local address (pktinfo) is returned", okc and no_pkt and same_sock, fi, r)
-            ctx.ob("the copy is made only when received on multicast", guarded_by(cfg, nid, "self.is_multicast_locally", True), fi, r)
-    ctx.ob("both outcomes exist", saw_self and saw_copy, fi, fi.node, construct="def as_response_address")
+            fresh = out[0] == "return" and isinstance(v, Obj) and v is not me and isinstance(v.data, dict) and "class" in v.data
+            okc = fresh and (v.data["class"] == cls.qn or prog.is_subclass(v.data["class"], cls.qn))
+            no_pkt = same_sock = False
+            got = None
+            if okc:
+                fr = kit.Frame(init.module)
+                try:
+                    m.bind(init.node, fr, None, [v] + list(v.data["args"]), dict(v.data["kwargs"]))
+                    got = {k: _label(x) for k, x in fr.vars.items() if k != "self"}
+                    no_pkt = fr.vars.get("pktinfo", pktinfo) is None
+                    same_sock = fr.vars.get("sockaddr") is sockaddr and fr.vars.get("interface") is interface
+                except kit.Unknown as u:
+                    raise AnalysisError("C10.g: constructor call in as_response_address: %s" % u)
+            ctx.ob("for messages received on multicast a copy without the local address (pktinfo) is returned", okc and no_pkt and same_sock and not strays, fi, fi.node,
+                   construct="as_response_address: received on multicast", detail="constructed with %s" % got if got is not None else "result %s" % (_label(v) if out[0] == "return" else out,))
+            ctx.ob("the copy is made only when received on multicast", v is not me, fi, fi.node, construct="as_response_address: copy")
+            outcomes.add("copy" if fresh else "other")
+    ctx.ob("both outcomes exist", outcomes == {"self", "copy"}, fi, fi.node, construct="def as_response_address")
 
 
 @R.clause("C10.h", "'unmatched' means what it says: a token is registered and retired under one and the same key (shared with C02.a / C02.c)")
@@ -508,18 +941,41 @@ def i_multicast_locally(ctx):
         rets = [n for n in walk_no_nested(fi.node) if isinstance(n, ast.Return) and n.value is not None]
         ok = False
         if len(rets) == 1:
-            v = resolve_local(fi.node, rets[0].value)
-            b = match("ipaddress.ip_address($a).is_multicast", v)
-            if b is not None:
-                a = resolve_local(fi.node, b["a"])
-                src = [c for c in ast.walk(a) if isinstance(c, ast.Call) and call_name(c) == "self." + helper]
+            # single-assignment locals are substituted at every depth: `addr = ip_address(..); return addr.is_multicast`
+            # and `plain = self._plainaddress_local(); return ip_address(plain).is_multicast` are the confirmed expression
+            v = _deep_resolve(fi.node, rets[0].value)
+            b = match("ipaddress.ip_address($a).is_multicast", v) or match("ip_address($a).is_multicast", v)
+            if b is not None and (chain(v.value.func) == "ipaddress.ip_address" or ctx.prog.resolve_in_module(fi.module, "ip_address") == "ipaddress.ip_address"):
+                src = [c for c in ast.walk(b["a"]) if isinstance(c, ast.Call) and call_name(c) == "self." + helper]
                 ok = len(src) == 1
         ctx.ob("%s is ipaddress.ip_address(<%s()>).is_multicast" % (prop, helper), ok, fi, rets[0] if rets else fi.node)
         hf = cls.methods.get(helper)
         ctx.need(hf is not None, "UDP6EndpointAddress.%s missing" % helper)
         hr = [n for n in walk_no_nested(hf.node) if isinstance(n, ast.Return) and n.value is not None]
-        okh = bool(hr) and all(any(isinstance(c, ast.Call) and call_name(c) == "self._strip_v4mapped" for c in ast.walk(r.value)) for r in hr)
+        okh = bool(hr) and all(any(isinstance(c, ast.Call) and call_name(c) in ("self._strip_v4mapped", "type(self)._strip_v4mapped", cls.qn.split(".")[-1] + "._strip_v4mapped")
+                                   for c in ast.walk(_deep_resolve(hf.node, r.value))) for r in hr)
         ctx.ob("%s renders v4-mapped addresses as plain IPv4 (through _strip_v4mapped)" % helper, okh, hf, hr[0] if hr else hf.node)
+
+
+def _deep_resolve(fnode, e, depth=6):
+    """e with every local that is assigned exactly once in fnode replaced by its value, recursively"""
+    env = norm.local_env(fnode)
+
+    class Sub(ast.NodeTransformer):
+        def __init__(self, d):
+            self.d = d
+
+        def visit_Name(self, n):
+            if isinstance(n.ctx, ast.Load) and n.id in env and self.d > 0:
+                return Sub(self.d - 1).visit(_copy(env[n.id]))
+            return n
+
+    return Sub(depth).visit(_copy(e))
+
+
+def _copy(e):
+    import copy
+    return copy.deepcopy(e)
 
 
 F_MM = "aiocoap/messagemanager.py"
@@ -548,6 +1004,18 @@ R.seed("C10.d", F_MM, "                    new_message = Message(code=EMPTY, mid
 R.seed("C10.f", F_MM, "        if message.mtype == CON and message.remote.is_multicast:\n            raise error.ConToMulticast\n\n        if message.mid is None:\n            message.mid = self._next_message_id()\n\n", "        if message.mid is None:\n            message.mid = self._next_message_id()\n\n", "test removed")
 R.seed("C10.g", "aiocoap/transports/udp6.py", "        if not self.is_multicast_locally:\n            return self", "        if self.is_multicast_locally:\n            return self", "inverted")
 R.seed("C10.g", "aiocoap/transports/udp6.py", "        return type(self)(self.sockaddr, self.interface)\n", "        return type(self)(self.sockaddr, self.interface, pktinfo=self.pktinfo)\n", "local address kept")
+
+# seeds for the scenario-based clauses: each breaks one observation the scenarios make
+R.seed("C10.b", F_MM, "        rst.remote = message.remote.as_response_address()\n        # not going via", "        rst.remote = message.remote\n        # not going via", "ping answered from the multicast address")
+R.seed("C10.b", F_MM, "        ack.remote = remote.as_response_address()\n", "        ack.remote = remote\n", "empty ACKs leave from the multicast address the request came to")
+R.seed("C10.c", F_MM, "                mid, handle = self._piggyback_opportunities.pop(piggyback_key)\n", "                mid, handle = self._piggyback_opportunities[piggyback_key]\n", "used opportunity not retired: a later response is piggy-backed on the same ACK again")
+R.seed("C10.c", F_MM, "                mid, own_timeout = self._piggyback_opportunities.pop((remote, token))", "                mid, own_timeout = self._piggyback_opportunities[(remote, token)]", "fired timer leaves its opportunity behind: the separate response is sent as a second ACK")
+R.seed("C10.c", F_MM, "                old_handle.cancel()\n", "                pass\n", "superseded opportunity: old timer keeps running")
+R.seed("C10.c", F_MM, "                request.remote, mid, \"Response took too long to prepare\"", "                request.remote, request.token, \"Response took too long to prepare\"", "empty ACK under something that is not the stored message ID")
+R.seed("C10.d", F_MM, "        if message.mtype == CON and message.remote in self._backlogs:", "        if message.mtype == CON and self._backlogs.get(message.remote):", "an open exchange with an empty queue no longer holds back the next CON (NSTART)")
+R.seed("C10.d", F_MM, "            self._send_initially(message, messageerror_monitor)\n", "            self._send_initially(message)\n", "confirmable message sent without its monitor")
+R.seed("C10.d", F_MM, "            self._backlogs[message.remote].append((message, messageerror_monitor))", "            self._backlogs[message.remote].insert(0, (message, messageerror_monitor))", "backlog served last-in first-out")
+R.seed("C10.f", F_MM, "        if message.mtype == CON and message.remote.is_multicast:\n            raise error.ConToMulticast", "        if message.mtype == CON and message.remote.is_multicast and message.code.is_request():\n            raise error.ConToMulticast", "confirmable responses to multicast let through")
 
 R.seed("C10.h", "aiocoap/tokenmanager.py", "        request.on_interest_end(\n            functools.partial(self.outgoing_requests.pop, key, None)\n        )\n", "        request.on_interest_end(\n            functools.partial(self.outgoing_requests.pop, (msg.token, msg.remote), None)\n        )\n", "multicast request cleaned up under another key than it is registered under")
 
